@@ -145,7 +145,7 @@ PROPS = {
     },
     "C14": {
         "lean": ["FsnVerif.Props.C14"],
-        "lean_support": ["FsnVerif.Model.Chan", "FsnVerif.Proofs.SkeletonTie", "FsnVerif.Proofs.BridgeTables"],
+        "lean_support": ["FsnVerif.Model.Chan", "FsnVerif.Proofs.SkeletonTieCaps", "FsnVerif.Proofs.BridgeTables"],
         "stages": [{"name": "conc", "cmd": "conc", "what": "C14"}],
         "rule": CONC_RULE + "; C14: 1-8 Watchers with buffers {0,1,2,4,64,4096,65536,3} on one directory, one sequential history, Add/Remove/WatchList/Close churn on the others: event sequences must be identical; cap(Events) read directly; absorb test per size",
         "assumptions": ["kernel isolation between inotify instances (measured)"],
